@@ -322,7 +322,10 @@ class DataFormat(object):
         if name == KEY_ENCODING:
             try:
                 codecs.lookup(value)
-            except LookupError:
+                # Detect codecs that are no text encodings, for example 'hex' or 'undefined'.
+                "".encode(value)
+                b"".decode(value)
+            except (LookupError, ValueError):
                 raise errors.InterfaceError(
                     "value for data format property %s is %s but must be a valid encoding"
                     % (_compat.text_repr(KEY_ENCODING), _compat.text_repr(self.encoding)),
